@@ -105,22 +105,22 @@ type structField struct {
 
 // smtCtx accumulates declarations for one SMT problem (one function or one lemma).
 type smtCtx struct {
-	eng      *Engine
-	home     *types.Package
-	structs  map[string]*structInfo
-	structL  []*structInfo
-	declared map[string]bool
-	decls    []string // const / fun declarations in order
-	axioms   []string // global assertions (prelude-level: speclib axioms, iface constructors, ...)
-	tids     map[string]int
-	tidTypes map[string]types.Type
-	tidNames []string
-	ifaceCtor map[Sort]bool
-	strLits  map[string]string
-	usedFuns map[string]bool
-	usedSorts map[string]bool
-	trusted  map[string]bool // names of assumed contracts / axioms used
-	fresh    int
+	eng        *Engine
+	home       *types.Package
+	structs    map[string]*structInfo
+	structL    []*structInfo
+	declared   map[string]bool
+	decls      []string // const / fun declarations in order
+	axioms     []string // global assertions (prelude-level: speclib axioms, iface constructors, ...)
+	tids       map[string]int
+	tidTypes   map[string]types.Type
+	tidNames   []string
+	ifaceCtor  map[Sort]bool
+	strLits    map[string]string
+	usedFuns   map[string]bool
+	usedSorts  map[string]bool
+	trusted    map[string]bool // names of assumed contracts / axioms used
+	fresh      int
 	arraysorts map[string]bool
 }
 
@@ -288,7 +288,7 @@ func (c *smtCtx) structSort(t types.Type) *structInfo {
 	return si
 }
 
-func (si *structInfo) ctor() string { return q("mk:" + si.Name) }
+func (si *structInfo) ctor() string        { return q("mk:" + si.Name) }
 func (si *structInfo) acc(f string) string { return q(si.Name + "." + f) }
 func (si *structInfo) field(name string) (int, *structField) {
 	for i := range si.Fields {
